@@ -1,7 +1,7 @@
 (* C19 — proofs, part 2: futures.  The trace of the MPIFuture model under ANY history of member calls and
    completion events, and of the PseudoFuture model under any call sequence, is accepted by the specification. *)
 From Coq Require Import List Bool Arith NArith Lia.
-From DuneV Require Import C19_Model C19_Spec.
+From DuneV Require Import Params_gen C19_Model C19_Spec.
 Import ListNotations.
 
 Definition c19_no_move (h : list c19_fev) : Prop := Forall (fun e => e <> C19_EvOp C19_Move) h.
@@ -152,6 +152,63 @@ Section FutProofs.
       + rewrite deqb_refl. cbn [andb]. apply (IH (C19_mkpfut false v)); [reflexivity|exact Hm'].
       + cbn [andb]. apply (IH (C19_mkpfut false v)); [reflexivity|exact Hm'].
   Qed.
+  (* ---- type-erased wrapper ---- *)
+  Lemma etrace_some_eq : forall h f, Forall (fun e => e <> C19_EvOp C19_SendData) h ->
+    c19_etrace cfg k v h (Some f) = c19_ftrace cfg C19_BValue v h f.
+  Proof.
+    induction h as [|e h IH]; intros f Hs; [reflexivity|].
+    inversion Hs as [|? ? Hne Hs']; subst.
+    destruct e as [o|].
+    - destruct o; cbn [c19_etrace c19_estep c19_ftrace].
+      + cbn [c19_fstep]. rewrite IH by exact Hs'. reflexivity.
+      + cbn [c19_fstep]. destruct (c19_mpi_test f) as [b f']. rewrite IH by exact Hs'. reflexivity.
+      + cbn [c19_fstep]. destruct (c19_fvalid f); rewrite IH by exact Hs'; reflexivity.
+      + cbn [c19_fstep]. destruct (c19_fvalid f); [|rewrite IH by exact Hs'; reflexivity].
+        rewrite buf_after_get_none. cbn [c19_buf_after_get]. rewrite IH by exact Hs'. reflexivity.
+      + cbn [c19_fstep c19_buf_after_move]. rewrite IH by exact Hs'. reflexivity.
+      + cbn [c19_fstep]. rewrite IH by exact Hs'. reflexivity.
+      + exfalso. apply Hne. reflexivity.
+    - cbn [c19_etrace c19_ftrace]. rewrite IH by exact Hs'. reflexivity.
+  Qed.
+
+  Lemma accept_etrace_none : forall h enabled known,
+    c19_spec_accept deqb v true enabled known (c19_etrace cfg k v h None) = true.
+  Proof.
+    induction h as [|e h IH]; intros enabled known; [reflexivity|].
+    destruct e as [o|]; [|cbn [c19_etrace]; apply IH].
+    destruct o; cbn [c19_etrace c19_estep app c19_spec_accept negb Bool.eqb andb]; apply IH.
+  Qed.
+
+  (* ---- ready once completed; never pending again ---- *)
+  Definition ready_true (it : c19_titem D) : Prop :=
+    match it with C19_TOp C19_Ready r => r = C19_RBool true | _ => True end.
+
+  Lemma ready_after_completion : forall h f, c19_pending f = false -> Forall ready_true (c19_ftrace cfg k v h f).
+  Proof.
+    induction h as [|e h IH]; intros [buf rq] Hp; [constructor|].
+    unfold c19_pending in Hp. cbn [c19_rq] in Hp.
+    destruct e as [o|].
+    - destruct o; cbn [c19_ftrace c19_fstep].
+      + constructor; [exact I|]. apply IH. exact Hp.
+      + unfold c19_mpi_test. cbn [c19_rq c19_buf]. destruct rq as [|[|]]; try discriminate;
+          (constructor; [reflexivity|]; apply IH; reflexivity).
+      + unfold c19_fvalid, c19_pending, c19_mpi_wait, c19_complete. cbn [c19_buf c19_rq].
+        destruct buf; destruct rq as [|[|]]; try discriminate; cbn [app c19_buf];
+          (constructor; [exact I|]; apply IH; reflexivity).
+      + unfold c19_fvalid, c19_pending, c19_mpi_wait, c19_complete. cbn [c19_buf c19_rq].
+        destruct buf; destruct rq as [|[|]]; try discriminate; cbn [app c19_buf];
+          (constructor; [exact I|]; apply IH; reflexivity).
+      + constructor; [exact I|]. apply IH. exact Hp.
+      + constructor; [exact I|]. apply IH. exact Hp.
+      + unfold c19_fvalid, c19_pending, c19_mpi_wait, c19_complete. cbn [c19_buf c19_rq].
+        destruct buf; destruct rq as [|[|]]; try discriminate; cbn [app c19_buf];
+          (constructor; [exact I|]; apply IH; reflexivity).
+    - cbn [c19_ftrace]. unfold c19_pending, c19_complete. cbn [c19_rq].
+      destruct rq as [|[|]]; try discriminate; cbn [app]; apply IH; reflexivity.
+  Qed.
+
+  Lemma complete_not_pending : forall f, c19_pending (c19_complete v f) = false.
+  Proof. intros [buf rq]. unfold c19_pending, c19_complete. cbn [c19_rq]. destruct rq as [|[|]]; reflexivity. Qed.
 End FutProofs.
 
 (* ------------------------------------------------------------------------------------------ *)
@@ -241,6 +298,70 @@ Lemma P_future_move_assign : forall (D : Type) (cfg : c19_cfg) (k : c19_bkind) (
   fst (c19_fstep cfg k v C19_MoveAssign f) = [C19_TOp C19_MoveAssign (C19_RBool false)] /\
   snd (c19_fstep cfg k v C19_MoveAssign f) = f.
 Proof. intros. split; reflexivity. Qed.
+
+(* type-erased Dune::Future<T> around an MPIFuture of ANY buffer kind: accepted for ALL histories, moves included *)
+Definition c19_no_senddata (h : list c19_fev) : Prop := Forall (fun e => e <> C19_EvOp C19_SendData) h.
+
+Lemma P_erased_future : forall (D : Type) (deqb : D -> D -> bool), (forall d, deqb d d = true) ->
+  forall (k : c19_bkind) (v init : D) (h : list c19_fev), c19_no_senddata h ->
+  c19_spec_accept deqb v false false false (c19_etrace c19_cfg_fixed k v h (Some (c19_fut_started init))) = true /\
+  c19_spec_accept deqb v true false false (c19_etrace c19_cfg_fixed k v h None) = true.
+Proof.
+  intros D deqb Hr k v init h Hs. split.
+  - rewrite (etrace_some_eq D c19_cfg_fixed k v) by (destruct k; reflexivity || exact Hs).
+    apply accept_trace; [exact Hr|reflexivity|apply inv_started|left; reflexivity].
+  - apply accept_etrace_none.
+Qed.
+
+(* "becomes ready once the operation has completed": after the completion event every ready() returns true, whatever
+   happens in between (calls, moves, further events) and whatever the buffer kind / code variant *)
+Lemma P_ready_after_completion : forall (D : Type) (cfg : c19_cfg) (k : c19_bkind) (v : D) (h : list c19_fev) (f : c19_fut D),
+  Forall (fun it => match it with C19_TOp C19_Ready r => r = C19_RBool true | _ => True end)
+         (c19_ftrace cfg k v h (c19_complete v f)).
+Proof. intros. apply ready_after_completion. apply complete_not_pending. Qed.
+
+(* "reports misuse ... instead of blocking or returning stale data": on an invalid future wait/get/get_send_data return
+   InvalidFutureException at once (no wait for the network, state unchanged, no data); get on a valid future waits,
+   returns the delivered data and invalidates *)
+Lemma P_invalid_rejects : forall (D : Type) (cfg : c19_cfg) (k : c19_bkind) (v : D) (f : c19_fut D), c19_fvalid f = false ->
+  c19_fstep cfg k v C19_Wait f = ([C19_TOp C19_Wait C19_RInvalid], f) /\
+  c19_fstep cfg k v C19_Get f = ([C19_TOp C19_Get C19_RInvalid], f) /\
+  c19_fstep cfg k v C19_SendData f = ([C19_TOp C19_SendData C19_RInvalid], f) /\
+  c19_fstep cfg k v C19_Valid f = ([C19_TOp C19_Valid (C19_RBool false)], f).
+Proof. intros D cfg k v f H. cbn [c19_fstep]. rewrite H. repeat split. Qed.
+
+Lemma P_get_invalidates : forall (D : Type) (cfg : c19_cfg) (k : c19_bkind) (v init : D) (netdone : bool),
+  c19_get_ok cfg k = true ->
+  let f := C19_mkfut (Some (if netdone then v else init)) (C19_ReqActive netdone) in
+  exists t, c19_fstep cfg k v C19_Get f = (t ++ [C19_TOp C19_Get (C19_RData v)], C19_mkfut None C19_ReqNull).
+Proof.
+  intros D cfg k v init netdone Hg f. unfold f. cbn [c19_fstep c19_fvalid c19_buf].
+  unfold c19_pending, c19_mpi_wait, c19_complete. cbn [c19_rq c19_buf].
+  rewrite (buf_after_get_none D cfg k Hg).
+  destruct netdone; cbn [option_map c19_buf]; eexists; reflexivity.
+Qed.
+
+Lemma P_fut_ctor : forall (D : Type) (v0 : D),
+  c19_fut_ctor None v0 = c19_fut_default /\ c19_fut_ctor (Some false) v0 = c19_fut_default /\
+  c19_fut_ctor (Some true) v0 = c19_fut_prevalid v0.
+Proof. intros. repeat split. Qed.
+
+Lemma P_start_rejected : forall fam op n,
+  c19_start_rejected fam op n = true <->
+  (fam = C19_FamSeq /\ (op = C19_Isend \/ op = C19_Irecv)) \/ (fam = C19_FamMPI /\ op = C19_Irecv /\ n = 0).
+Proof.
+  intros fam op n. split.
+  - destruct fam, op; cbn; intros H; try discriminate; try (left; split; [reflexivity|tauto]).
+    right. apply Nat.eqb_eq in H. tauto.
+  - intros [(-> & [-> | ->]) | (-> & -> & ->)]; reflexivity.
+Qed.
+
+Lemma P_example_erased :
+  c19_etrace c19_cfg_fixed C19_BRef 5 [C19_EvOp C19_Move; C19_EvOp C19_Ready; C19_EvComplete; C19_EvOp C19_MoveAssign; C19_EvOp C19_Get; C19_EvOp C19_Get]
+             (Some (c19_fut_started 0))
+  = [C19_TOp C19_Move (C19_RBool false); C19_TOp C19_Ready (C19_RBool false); C19_TEnable; C19_TOp C19_MoveAssign (C19_RBool false);
+     C19_TOp C19_Get (C19_RData 5); C19_TOp C19_Get C19_RInvalid].
+Proof. vm_compute. reflexivity. Qed.
 
 (* non-vacuity: a history in which every kind of event occurs, with its trace *)
 Lemma P_example_future :
